@@ -395,12 +395,31 @@ func agentKey() (string, error) {
 		if err != nil || len(pub) != 32 {
 			return "", fmt.Errorf("announced agent public key %q is not 32 bytes of hex", m[1])
 		}
-		d := &net.Dialer{Timeout: ioTimeout}
-		cc, err := libdisco.DialWithDialer(d, "tcp", addr, &libdisco.Config{HandshakePattern: libdisco.Noise_NK, RemoteKey: pub})
+		// TCP connect trouble on loopback (ephemeral ports exhausted by other work on the
+		// machine ...) is the environment, not the sensor
+		var tc net.Conn
+		for try := 0; try < 20; try++ {
+			d := &net.Dialer{Timeout: ioTimeout}
+			if try > 0 {
+				// another loopback source address has its own ephemeral port space
+				d.LocalAddr = &net.TCPAddr{IP: net.IPv4(127, 0, byte(os.Getpid()>>8), byte(2+try))}
+			}
+			tc, err = d.Dial("tcp", addr)
+			if err == nil {
+				break
+			}
+			time.Sleep(250 * time.Millisecond)
+		}
+		if err != nil {
+			return "", fmt.Errorf("infra: cannot connect to the agent listener on %s: %v", addr, err)
+		}
+		tc.SetDeadline(time.Now().Add(ioTimeout))
+		cc := libdisco.Client(tc, &libdisco.Config{HandshakePattern: libdisco.Noise_NK, RemoteKey: pub})
+		err = cc.Handshake()
+		tc.Close()
 		if err != nil {
 			return "", fmt.Errorf("Noise_NK handshake against the announced key %s failed: %v", m[1], err)
 		}
-		cc.Close()
 		return strings.ToLower(m[1]), nil
 	}
 	return "", fmt.Errorf("infra: %v", lastErr)
